@@ -377,16 +377,9 @@ func (p *parser) expression(prec int) (Node, error) {
 			}
 
 			if project {
-				right, err := p.projection(newPrec)
+				node, err = p.sliceProjection(node)
 				if err != nil {
 					return nil, err
-				}
-
-				if right != nil {
-					node = &ProjectArrayNode{
-						Left:  node,
-						Right: right,
-					}
 				}
 			}
 		case lexer.OrToken:
@@ -1784,16 +1777,9 @@ func (p *parser) primaryExpression() (Node, error) {
 			}
 
 			if project {
-				right, err := p.projection(precedence(lexer.OpenSqBraceToken))
+				node, err = p.sliceProjection(node)
 				if err != nil {
 					return nil, err
-				}
-
-				if right != nil {
-					node = &ProjectArrayNode{
-						Left:  node,
-						Right: right,
-					}
 				}
 			}
 		} else {
@@ -1971,9 +1957,17 @@ func (p *parser) projection(prec int) (Node, error) {
 			return nil, err
 		}
 
-		node, _, err = p.index(nil)
+		var project bool
+		node, project, err = p.index(nil)
 		if err != nil {
 			return nil, err
+		}
+
+		if project {
+			node, err = p.sliceProjection(node)
+			if err != nil {
+				return nil, err
+			}
 		}
 	default:
 		return nil, nil
@@ -2088,9 +2082,17 @@ func (p *parser) projection(prec int) (Node, error) {
 				return nil, err
 			}
 
-			node, _, err = p.index(node)
+			var project bool
+			node, project, err = p.index(node)
 			if err != nil {
 				return nil, err
+			}
+
+			if project {
+				node, err = p.sliceProjection(node)
+				if err != nil {
+					return nil, err
+				}
 			}
 		default:
 			return nil, &unexpectedTokenError{p.curr.Value}
@@ -2100,6 +2102,25 @@ func (p *parser) projection(prec int) (Node, error) {
 	}
 
 	return node, nil
+}
+
+// sliceProjection parses the right-hand side of the projection started by
+// the slice node. Without a right-hand side the elements themselves are
+// projected, which omits nulls from an array and leaves a string unchanged.
+func (p *parser) sliceProjection(slice Node) (Node, error) {
+	right, err := p.projection(projectionPrecedence)
+	if err != nil {
+		return nil, err
+	}
+
+	if right == nil {
+		right = CurrentNode{}
+	}
+
+	return &ProjectArrayNode{
+		Left:  slice,
+		Right: right,
+	}, nil
 }
 
 func (p *parser) selectArray(child Node) (Node, error) {
